@@ -18,6 +18,20 @@ package main
 //  W4  the accelerated and the brute-force evaluation share the per-segment
 //      kernels and the final sign rule
 //
+//  W5  (float-faithful) the four child boxes tile the parent exactly
+//  W6  (float-faithful) Box2.lineIntersect: the candidate point for the parameter values 0 and
+//      1 is the segment's own end point, bit for bit. The pieces of one edge in neighbouring
+//      leaves then chain through identical points, and the half-open rule of W1 counts a
+//      vertex level exactly once; an end point rebuilt as u + (l[1]-u) can land an ulp off
+//      the vertex and the crossing at that level is lost or doubled.
+//  W7  Box2.lineFilter hands to lineIntersect every segment that the box can own: a test in
+//      front of the clipper may only drop segments that lie beyond the box or merely touch it
+//      from outside; a segment lying on the bottom / left edge is owned (W3) and must get through
+//  W8  tAppend merges line parameters that differ by rounding only: the parameter of an end point
+//      lying on a box edge is computed as (edge - u)·(1/v), one ulp off the literal 0 / 1 it
+//      duplicates (49·(1/49) = 0.9999999999999999); kept apart, the box sees three candidate
+//      points and drops the piece
+//
 // Not decided: distances (clipping tolerance, pruning by box distance, search order).
 
 import (
@@ -50,6 +64,9 @@ func checkC04(ctx *Ctx, r *Report, tier string) {
 	r.floor("W4", 3)
 	checkQuadTiling(ctx, r)
 	r.floor("W5", 5)
+	checkClipEndpoints(ctx, r)
+	checkClipPrefilter(ctx, r)
+	checkParameterMerging(ctx, r)
 }
 
 var windingConvention = true // lower endpoint closed (set by W1 on the real function)
@@ -182,56 +199,52 @@ func checkQuadtreeWinding(ctx *Ctx, r *Report, lowerClosed bool) {
 		r.undecided("W2", "qtNode.winding", 0, "not found")
 		return
 	}
-	ev := newEval(ctx, "(*sdf.lineInfo).winding")
-	ev.evalRoot(fn)
 	node, p := paramName(fn, 0), paramName(fn, 1)
-	qx := Cmp("<", Sub(A(p+".X"), A(node+".center.X")), K(0))
-	qy := Cmp("<", Sub(A(p+".Y"), A(node+".center.Y")), K(0))
-	var calls []Event
-	for _, e := range ev.Events {
-		if strings.HasPrefix(e.Callee, "rec:") && strings.HasSuffix(e.Callee, ".winding") {
-			calls = append(calls, e)
+	// first pass: which comparisons does the function branch on?
+	ev0 := newEval(ctx, "(*sdf.lineInfo).winding")
+	ev0.evalRoot(fn)
+	side := func(ax string) *Term {
+		// the test of p.ax against the centre: p.ax − centre.ax < 0, in any equivalent spelling
+		d := Sub(A(p+"."+ax), A(node+".center."+ax))
+		for _, c := range ev0.BranchConds {
+			if c.S == "<" && c.Args[1].IsZero() && equalRat(c.Args[0], d) {
+				return c
+			}
+			if c.S == "<" && equalRat(Sub(c.Args[0], c.Args[1]), d) {
+				return c
+			}
 		}
+		return nil
 	}
-	if len(calls) == 0 {
-		r.check("W2", "qtNode.winding|recursion", fn.Pos(), false, "no recursive descent found")
+	qx, qy := side("X"), side("Y")
+	r.check("W2", "qtNode.winding|split-line-points-go-to-the-upper-right-children", fn.Pos(), qx != nil && qy != nil, "the two routing tests are p.k − centre.k < 0 (strict): a point exactly on a split line is handled by the child whose Min edge is that line (must agree with W3)")
+	if qx == nil || qy == nil {
 		return
 	}
-	// conditions must be built from the two sign tests (plus nil/leaf tests)
-	known := map[string]bool{qx.Key(): true, qy.Key(): true}
 	for _, xl := range []bool{true, false} {
 		for _, yl := range []bool{true, false} {
-			truth := map[string]bool{qx.Key(): xl, qy.Key(): yl}
+			// second pass: the function specialised to this position class
+			ev := newEval(ctx, "(*sdf.lineInfo).winding")
+			ev.assume = map[string]bool{qx.Key(): xl, qy.Key(): yl}
+			ev.evalRoot(fn)
 			visited := map[int]bool{}
-			for _, e := range calls {
-				c := e.Cond
-				if c == nil {
+			for _, e := range ev.Events {
+				if !(strings.HasPrefix(e.Callee, "rec:") && strings.HasSuffix(e.Callee, ".winding")) {
 					continue
 				}
-				// other leaves (nil node, leaf test): take the branch that reaches the children
-				tr := map[string]bool{}
-				for k, v := range truth {
-					tr[k] = v
-				}
-				for _, ca := range condAtoms(c) {
-					if !known[ca.Key()] {
-						// choose the value that keeps the condition alive, if any
-						tr[ca.Key()] = true
-						if assume(c, tr).IsZero() {
-							tr[ca.Key()] = false
-						}
-					}
-				}
-				if assume(c, tr).IsZero() {
+				if e.Cond != nil && e.Cond.IsZero() {
 					continue
 				}
 				s, _ := e.Args[0].(*Sym)
-				if s == nil {
+				if s == nil || !strings.Contains(s.Path, "[") {
+					visited[-1] = true // a child that is not node.child[k] with constant k
 					continue
 				}
 				var k int
 				if _, err := fmt.Sscanf(s.Path[strings.LastIndex(s.Path, "["):], "[%d]", &k); err == nil {
 					visited[k] = true
+				} else {
+					visited[-1] = true
 				}
 			}
 			// children: 0 sw, 1 se, 2 nw, 3 ne
@@ -248,19 +261,6 @@ func checkQuadtreeWinding(ctx *Ctx, r *Report, lowerClosed bool) {
 				fmt.Sprintf("children visited %v, expected %v (own row, own column and everything to the right: the ray goes towards +x)", sortedInts(visited), sortedInts(want)))
 		}
 	}
-	// the tests are strict (<): equality goes to the upper row / right column, i.e. a point on a split
-	// line is looked up in the child that owns its bottom / left edge
-	strict := false
-	for _, e := range calls {
-		if e.Cond != nil {
-			for _, ca := range condAtoms(e.Cond) {
-				if ca.Key() == qx.Key() || ca.Key() == qy.Key() {
-					strict = true
-				}
-			}
-		}
-	}
-	r.check("W2", "qtNode.winding|split-line-points-go-to-the-upper-right-children", fn.Pos(), strict, "tests are p.k − centre.k < 0: a point exactly on a split line is handled by the child whose Min edge is that line (must agree with W3)")
 }
 
 func sortedInts(m map[int]bool) []int {
@@ -427,4 +427,269 @@ func checkQuadTiling(ctx *Ctx, r *Report) {
 		}
 		r.check("W5", "Box2."+q+"|shares-its-edges-with-parent-and-siblings", ctx.ssaFunc("sdf", "(Box2)."+q).Pos(), ok, "outer edges are the parent's own coordinates, inner edges the centre's (same floating-point expression on both sides);"+detail)
 	}
+}
+
+// ---------------------------------------------------------------- W6
+
+// checkClipEndpoints: in lineIntersect every candidate point is a function P(t) of the line
+// parameter; the candidates include t = 0 and t = 1 (the slice literal the parameter set starts
+// from). Substituting those into the float-faithful term of P must give l[0] and l[1].
+func checkClipEndpoints(ctx *Ctx, r *Report) {
+	fn := ctx.ssaFunc("sdf", "(*Box2).lineIntersect")
+	if fn == nil {
+		r.undecided("W6", "Box2.lineIntersect", 0, "not found")
+		return
+	}
+	// do the candidates start from the literal {0, 1}?
+	has := map[string]bool{}
+	allInstrs(fn, func(b *ssa.BasicBlock, ins ssa.Instruction) {
+		st, ok := ins.(*ssa.Store)
+		if !ok {
+			return
+		}
+		c, ok := st.Val.(*ssa.Const)
+		if !ok || c.Value == nil {
+			return
+		}
+		if ia, ok := st.Addr.(*ssa.IndexAddr); ok {
+			if _, isAlloc := ia.X.(*ssa.Alloc); isAlloc {
+				if q, ok := constantToRat(c.Value); ok && q.IsInt() {
+					has[q.Num().String()] = true
+				}
+			}
+		}
+	})
+	if !has["0"] || !has["1"] {
+		r.check("W6", "Box2.lineIntersect|end-points-kept", fn.Pos(), true, "the parameter set does not start from the literal {0, 1}: end points are not rebuilt from parameters (rule not applicable to this shape)")
+		return
+	}
+	ev := newEval(ctx, "Snap", "tAppend", "Contains")
+	ev.faithful = true
+	ev.evalRoot(fn)
+	if ev.Exceeded {
+		r.undecided("W6", "Box2.lineIntersect", fn.Pos(), "evaluation budget exceeded")
+		return
+	}
+	// the candidate points: what is appended to a slice of points
+	var cand []*Term // X, Y of each appended point
+	for _, e := range eventsOf(ev, "append") {
+		for _, v := range appendedVals(e) {
+			var xy []*Term
+			switch x := v.(type) {
+			case *Sym:
+				if x.Call != nil && strings.HasSuffix(x.Call.S, ".Snap") && len(x.Call.Args) >= 2 && x.Call.Args[1].Op == "agg" && len(x.Call.Args[1].Args) == 2 {
+					xy = x.Call.Args[1].Args // snapping onto the box edge is the tolerance design, not this rule
+				}
+			case *Agg:
+				if len(x.Elems) == 2 {
+					a, ok1 := x.Elems[0].(*Term)
+					b, ok2 := x.Elems[1].(*Term)
+					if ok1 && ok2 {
+						xy = []*Term{a, b}
+					}
+				}
+			}
+			if xy != nil {
+				cand = append(cand, xy...)
+			}
+		}
+	}
+	if len(cand) < 2 {
+		r.undecided("W6", "Box2.lineIntersect", fn.Pos(), "no candidate point of the form P(t) found among the appended values")
+		return
+	}
+	for i, comp := range []string{"X", "Y"} {
+		P := cand[i]
+		// the parameter: the one subterm that is neither an end point nor a box coordinate
+		params := map[string]*Term{}
+		for _, s := range findSub(P, func(x *Term) bool { return x.Op == "sel" }) {
+			params[s.Key()] = s
+		}
+		if len(params) == 0 {
+			for _, s := range findSub(P, func(x *Term) bool {
+				return x.Op == "a" && !strings.HasPrefix(x.S, "l[") && !strings.HasPrefix(x.S, "a.")
+			}) {
+				params[s.Key()] = s
+			}
+		}
+		if len(params) != 1 {
+			r.undecided("W6", "Box2.lineIntersect|"+comp, fn.Pos(), fmt.Sprintf("candidate point is not a function of one parameter: %s", shortKey(P.Key(), 160)))
+			continue
+		}
+		var tk string
+		for k := range params {
+			tk = k
+		}
+		for _, end := range []int64{0, 1} {
+			got := substKeys(P, map[string]*Term{tk: K(end)})
+			want := A(fmt.Sprintf("l[%d].%s", end, comp))
+			r.check("W6", fmt.Sprintf("Box2.lineIntersect|candidate(t=%d).%s-is-l[%d].%s", end, comp, end, comp), fn.Pos(), got.Key() == want.Key(),
+				fmt.Sprintf("candidate point at t=%d is computed as %s; the piece must end in the segment's own end point %s (floating point: u + (v-u) is not v)", end, shortKey(got.Key(), 120), want.Key()))
+		}
+	}
+	r.floor("W6", 4)
+}
+
+// ---------------------------------------------------------------- W7
+
+// checkClipPrefilter: the condition under which lineFilter reaches lineIntersect, as a
+// comparison-only term over the segment's end points and the box, is evaluated for every weak
+// ordering of {x0, x1, Min.X, Max.X} x {y0, y1, Min.Y, Max.Y} (values 0..3 on each axis). Whenever
+// the segment can be owned by the box - it reaches below Max on both axes and, on each axis,
+// either reaches above Min or lies exactly on Min - the clipper must be called.
+func checkClipPrefilter(ctx *Ctx, r *Report) {
+	fn := ctx.ssaFunc("sdf", "(*Box2).lineFilter")
+	if fn == nil {
+		r.undecided("W7", "Box2.lineFilter", 0, "not found")
+		return
+	}
+	ev := newEval(ctx, "lineIntersect")
+	ev.evalRoot(fn)
+	es := eventsOf(ev, ".lineIntersect")
+	if len(es) != 1 || ev.Exceeded {
+		r.undecided("W7", "Box2.lineFilter", fn.Pos(), fmt.Sprintf("%d calls of lineIntersect, expected 1", len(es)))
+		return
+	}
+	e := es[0]
+	seg := ""
+	for _, a := range e.Args {
+		if s, ok := a.(*Sym); ok && s.Idx != nil {
+			seg = s.Path
+		}
+	}
+	box := paramName(fn, 0)
+	var guards []*Term
+	for _, c := range conjuncts(e.Cond) {
+		if strings.Contains(c.Key(), "len(") {
+			continue // the loop's own test
+		}
+		guards = append(guards, c)
+	}
+	if len(guards) == 0 {
+		r.check("W7", "Box2.lineFilter|owned-segments-reach-the-clipper", e.Pos, true, "every segment of the set is handed to lineIntersect")
+		r.floor("W7", 1)
+		return
+	}
+	if seg == "" {
+		r.undecided("W7", "Box2.lineFilter", e.Pos, "the clipped segment is not an element of the set")
+		return
+	}
+	names := map[string]string{
+		seg + "[0].X": "x0", seg + "[1].X": "x1", seg + "[0].Y": "y0", seg + "[1].Y": "y1",
+		box + ".Min.X": "mx", box + ".Max.X": "Mx", box + ".Min.Y": "my", box + ".Max.Y": "My",
+	}
+	for _, g := range guards {
+		for _, a := range atomList(g) {
+			if _, ok := names[a]; !ok {
+				r.undecided("W7", "Box2.lineFilter", e.Pos, "the test in front of the clipper reads "+shortKey(a, 80)+": outside the fragment (end points and box corners)")
+				return
+			}
+		}
+	}
+	bad, cases := "", 0
+	v := make([]int64, 8) // x0 x1 mx Mx y0 y1 my My
+	var rec func(i int)
+	undecidable := false
+	rec = func(i int) {
+		if undecidable {
+			return
+		}
+		if i == 8 {
+			x0, x1, mx, Mx, y0, y1, my, My := v[0], v[1], v[2], v[3], v[4], v[5], v[6], v[7]
+			if mx >= Mx || my >= My {
+				return
+			}
+			minx, maxx, miny, maxy := min(x0, x1), max(x0, x1), min(y0, y1), max(y0, y1)
+			owned := minx < Mx && miny < My && (maxx > mx || (maxx == mx && minx == maxx)) && (maxy > my || (maxy == my && miny == maxy))
+			if !owned || (x0 == x1 && y0 == y1) {
+				return
+			}
+			cases++
+			env := map[string]*big.Rat{}
+			for a, nm := range names {
+				idx := map[string]int{"x0": 0, "x1": 1, "mx": 2, "Mx": 3, "y0": 4, "y1": 5, "my": 6, "My": 7}[nm]
+				env[a] = big.NewRat(v[idx], 1)
+			}
+			func() {
+				defer func() {
+					if recover() != nil {
+						undecidable = true
+					}
+				}()
+				for _, g := range guards {
+					if evalT(g, env).Sign() == 0 && len(bad) < 200 {
+						bad += fmt.Sprintf(" segment (%d,%d)-(%d,%d) in box [%d,%d]x[%d,%d] is dropped;", x0, y0, x1, y1, mx, Mx, my, My)
+					}
+				}
+			}()
+			return
+		}
+		for k := int64(0); k < 4; k++ {
+			v[i] = k
+			rec(i + 1)
+		}
+	}
+	rec(0)
+	if undecidable {
+		r.undecided("W7", "Box2.lineFilter", e.Pos, "the test in front of the clipper is not comparison-only")
+		return
+	}
+	r.Counts["prefilter_cases"] = cases
+	r.check("W7", "Box2.lineFilter|owned-segments-reach-the-clipper", e.Pos, bad == "", fmt.Sprintf("%d order cases in which the box can own the segment (bottom/left edges included): the clipper must be reached;%s", cases, bad))
+	r.floor("W7", 1)
+}
+
+// ---------------------------------------------------------------- W8
+
+// checkParameterMerging: the test under which tAppend leaves the set unchanged because the
+// parameter is already there is evaluated (exact rational arithmetic on its closed form) for a
+// stored parameter 1 and a new one an ulp below: it must hold.
+func checkParameterMerging(ctx *Ctx, r *Report) {
+	fn := ctx.ssaFunc("sdf", "tAppend")
+	if fn == nil {
+		r.undecided("W8", "tAppend", 0, "not found")
+		return
+	}
+	ev := newEval(ctx)
+	ev.evalRoot(fn)
+	set, tn := paramName(fn, 0), paramName(fn, 1)
+	var dup *Term
+	for _, alt := range ev.RootRets {
+		if valKey(alt.Val) != "sym:"+set || alt.Cond == nil {
+			continue
+		}
+		cs := conjuncts(alt.Cond)
+		if len(cs) == 0 {
+			continue
+		}
+		last := cs[len(cs)-1]
+		if len(findSub(last, func(x *Term) bool { return x.Op == "sel" && x.S == set })) > 0 {
+			dup = last
+		}
+	}
+	if dup == nil || ev.Exceeded {
+		r.undecided("W8", "tAppend", fn.Pos(), "no return of the unchanged set that depends on a stored parameter")
+		return
+	}
+	ulp := new(big.Rat).SetFrac64(1, 1<<53)
+	below := new(big.Rat).Sub(big.NewRat(1, 1), ulp)
+	env := map[string]*big.Rat{tn: below}
+	for _, s := range findSub(dup, func(x *Term) bool { return x.Op == "sel" && x.S == set }) {
+		env[s.Key()] = big.NewRat(1, 1)
+	}
+	ok, why := false, ""
+	func() {
+		defer func() {
+			if e := recover(); e != nil {
+				why = fmt.Sprint(e)
+			}
+		}()
+		ok = evalT(dup, env).Sign() != 0
+	}()
+	if why != "" {
+		r.undecided("W8", "tAppend", fn.Pos(), "duplicate test outside the fragment: "+why)
+		return
+	}
+	r.check("W8", "tAppend|parameters-an-ulp-apart-are-one-candidate", fn.Pos(), ok, "stored 1, new 1-2^-53 (what (edge-u)*(1/v) gives for an end point on the edge): must count as already present; test: "+shortKey(dup.Key(), 160))
+	r.floor("W8", 1)
 }
